@@ -168,7 +168,15 @@ where
                 park_if_still_loading(&self.loading, &self.wakers, waker);
                 Poll::Pending
             }
-            (_, Poll::Pending) => Poll::Pending,
+            (_, Poll::Pending) => {
+                // Not loading, but the value is write-locked right now (a synchronous
+                // update through `write()`/`set()` on another thread, or a task that holds
+                // the write guard). The lock's own listener lives in `value`, which is
+                // dropped when this poll returns, and this task is not among `wakers`:
+                // nothing would wake it when the lock is released. Poll again instead.
+                waker.wake_by_ref();
+                Poll::Pending
+            }
             (_, Poll::Ready(guard)) => {
                 Poll::Ready(guard.as_ref().unwrap().clone())
             }
@@ -236,7 +244,15 @@ where
                 park_if_still_loading(&self.loading, &self.wakers, waker);
                 Poll::Pending
             }
-            (_, Poll::Pending) => Poll::Pending,
+            (_, Poll::Pending) => {
+                // Not loading, but the value is write-locked right now (a synchronous
+                // update through `write()`/`set()` on another thread, or a task that holds
+                // the write guard). The lock's own listener lives in `value`, which is
+                // dropped when this poll returns, and this task is not among `wakers`:
+                // nothing would wake it when the lock is released. Poll again instead.
+                waker.wake_by_ref();
+                Poll::Pending
+            }
             (_, Poll::Ready(guard)) => Poll::Ready(ReadGuard::new(
                 Mapped::new_with_guard(AsyncPlain { guard }, |guard| {
                     guard.as_ref().unwrap()
